@@ -767,3 +767,5 @@ def check_pool(case: dict[str, Any], rec: Any) -> None:
 
 
 FINDINGS: dict[str, Any] = {}
+
+LEVEL_NOTE += " Rounds 13-14: data age by the message's own timestamp; manager tier with partly failing requests and idle blocked batteries."
